@@ -448,6 +448,9 @@ def run(ctx):
     ctx.pmap(worker, [(k, n // nw, ctx.seed) for k in range(nw)])
     ctx.pmap(very_long_worker, [(k, ctx.scale(1, 6), ctx.seed) for k in range(nw)])
     ctx.require("very_long_path_runs", 4)
+    import deep
+    ctx.pmap(deep.deep_worker, [("pipe", k, 1 if ctx.quick else 6, ctx.seed) for k in range(common.NCPU)])
+    ctx.require("runs_over_a_tree_deeper_than_the_open_files_limit", 8)
     ctx.pmap(loop_worker, [(k, ctx.scale(4, 120), ctx.seed) for k in range(nw)])
     ctx.require("pipelines_over_a_link_cycle", 20)
     ctx.pmap(drain_worker, [(k, ctx.scale(1, 6), ctx.seed) for k in range(nw)])
